@@ -222,6 +222,22 @@ P('C13',
   thorough=dict(cases=8000000, max_size=1500, max_seconds=1500, fuzz=dict(seconds=180, jobs=8, max_len=1500)),
   )
 
+P('C04',
+  technique='property-based testing: generated sampling configurations and payloads rendered by the reference signal generator, exact round trip through vbi3_raw_decoder, legacy vbi_raw_decoder, vbi3_bit_slicer and legacy vbi_bit_slicer; service remove / add history',
+  rule='configuration = (one of 14 documented service combinations incl. single services and single-field sets, sampling rate log-uniform from the documented minimum '
+       'to 36 MHz or one of 7 customary rates, horizontal window starting 1-6 us before and ending 0-3 us after the nominal signals, one of the 25 pixel formats, sequential / '
+       'interlaced, synchronous or not, customary or widened line ranges, strict 0-2, each line blank or carrying an all-0 / all-1 / alternating / long-run / random payload), '
+       'then a remove-service / add-service history. Non-trivial: the rate is none of the four rates of the existing test, or the format is not YUV420, or the history ran; distinct = hash of consumed choices.',
+  level_text='Generated-input search with an explicit oracle: exactly one record per transmitted line of a granted service, same service id, ITU-R line number ascending '
+             '(0 and transmit order when the field order is unknown), payload bits equal, bytes behind the payload and records behind the reported count untouched, never an id that '
+             'was not requested, a blank image gives no record; the legacy decoder must return the same, both single-line slicers must return the payload of every transmitted line; after '
+             'removing and re-adding a service the outputs follow. Sampling only.',
+  level_note='Trusted: the repository signal generator (io-sim) as transmitter, as the property names it; nominal signal windows in models/raw_gen.h; the service table supplies CRI / FRC patterns for the single-line slicers. Rates whose integer sampling step drifts by >= 0.2 bit over the payload are a known finding and are replaced by the nearest drift-free rate (counted).',
+  design_ref='DESIGN.md section 2, C04',
+  quick=dict(cases=400000, max_size=1200, max_seconds=120),
+  thorough=dict(cases=12000000, max_size=1200, max_seconds=1500, fuzz=dict(seconds=240, jobs=8, max_len=1200)),
+  )
+
 NOT_YET = {}
 
 
